@@ -342,3 +342,16 @@ Theorem C03_distributions_py_quantile_within_precision :
                       (Q2R q))) (Q2R prec).
 Proof. exact @source_quantile_within_precision. Qed.
 Print Assumptions C03_distributions_py_quantile_within_precision.
+
+(* cdf(0) = 0 when the initial distribution sits on the states marked by e, any demography (translated cdf) *)
+From PG Require Import analysis.SourceCdfZero.
+Theorem C03_distributions_py_cdf_zero_at_zero :
+  forall expm : seq (seq R) -> seq (seq R),
+    (forall n A, wf n n A -> wf n n (expm A) /\ mx_of n n (expm A) = mexp (mx_of n n A)) ->
+  forall (n : nat) (Ss : seq (Q * seq (seq R))) (Slast : seq (seq R)) (alpha e : seq R),
+    List.Forall (fun x : Q * seq (seq R) => wf n n x.2) Ss -> wf n n Slast -> size e = n ->
+    epochs_wf (seq (seq R)) 0%QQ Ss ->
+    (rv_of n alpha *m cv_of n e) ord0 ord0 = 1 ->
+    TreeHeightDistribution_cdf OpsR expm (length Slast) (all_epochs Ss Slast) alpha e [:: 0%QQ] = [:: 0].
+Proof. exact: source_cdf_zero_at_zero. Qed.
+Print Assumptions C03_distributions_py_cdf_zero_at_zero.
